@@ -249,8 +249,28 @@ def rule_reset(ctx, R):
         after_later = set()
         for j in later:
             after_later |= cfg.fwd_strict(b, j)
+        # the arm is also cut off from the extracted data: it lies neither before nor after a read
+        # of the payload (`Some(Some(data)) => data`), so an early return placed after the state
+        # was read -- which is inside the transaction -- is not mistaken for it
+        d = b.term(i)["d"]["l"]
+        holders = {d}
+        for _ in range(4):
+            for bb in b.bbs:
+                for st in bb["s"]:
+                    if st["k"] == "=" and st["r"]["k"] == "use" and not st["l"]["p"] and op_place(st["r"]["o"]) and op_place(st["r"]["o"])["l"] in holders and not op_place(st["r"]["o"])["p"]:
+                        holders.add(st["l"]["l"])
+        reads = set()
+        for x, bb in enumerate(b.bbs):
+            for st in bb["s"]:
+                if st["k"] != "=":
+                    continue
+                r = st["r"]
+                pl = op_place(r["o"]) if r["k"] in ("use", "cast") and op_place(r.get("o")) else (r["p"] if r["k"] == "ref" else None)
+                if pl and pl["l"] in holders and any(isinstance(e, dict) and e.get("v") == "Some" for e in pl["p"]) and any(isinstance(e, dict) and "f" in e for e in pl["p"]):
+                    reads.add(x)
+        before_read = cfg.bwd(b, reads); after_read = cfg.fwd(b, reads)
         for x in cfg.fwd_strict(b, i):
-            if x not in can_reach_later and x not in after_later:
+            if x not in can_reach_later and x not in after_later and (not reads or (x not in before_read and x not in after_read)):
                 exempt.add(x)
     n = 0
     for e in b.exits():
